@@ -20,7 +20,7 @@ ENGINES = {
 # evidence is reproducible.  See DESIGN.md "Calibration".
 RUNS = {
     "C09": {"quick": 50000, "thorough": 1000000},
-    "C10": {"quick": 30000, "thorough": 500000},
+    "C10": {"quick": 25000, "thorough": 500000},
     "C06": {"quick": 30000, "thorough": 900000},
     "C11": {"quick": 16000, "thorough": 300000},
     "C05": {"quick": 8000, "thorough": 160000},
